@@ -86,8 +86,27 @@ Manifold& partner() {
 // monitor, not the argument fuzzer.
 const int kNumOps = 44;
 const char* const kOpNames[kNumOps] = {"Boolean.lhs.Add", "Boolean.lhs.Subtract", "Boolean.lhs.Intersect", "Boolean.rhs.Add", "Boolean.rhs.Subtract", "Boolean.rhs.Intersect", "BatchBoolean", "HullList", "Hull", "Compose", "Split.lhs", "Split.rhs", "SplitByPlane", "TrimByPlane", "MinkowskiSum.lhs", "MinkowskiSum.rhs", "MinkowskiDifference.lhs", "MinkowskiDifference.rhs", "Decompose", "Translate", "Rotate", "Scale", "Mirror", "Transform", "Warp", "WarpBatch", "SetTolerance", "Simplify", "Refine", "RefineToLength", "RefineToTolerance", "SmoothOut", "SmoothByNormals", "AsOriginal", "CalculateNormals", "CalculateCurvature", "SetProperties", "copy-assign", "WithContext.Refine", "operator+=", "operator-=", "operator^=", "WithContext.Hull", "WithContext.MinkowskiSum"};
+// The valid operand on the other side of a binary operation: usually a solid,
+// sometimes a valid EMPTY Manifold (default-constructed, or the evaluated empty
+// result of an earlier operation) or a still lazy expression. Shortcuts taken
+// for empty / unevaluated operands must not swallow the other side's error.
+const Manifold& pickPartner(vh::Rng& r) {
+  static Manifold emptyDefault;
+  static Manifold emptyResult = [] {
+    Manifold e = Manifold::Cube(vec3(1.0)) ^ Manifold::Cube(vec3(1.0)).Translate({5, 0, 0});
+    (void)e.Status();
+    return e;
+  }();
+  static Manifold lazy = Manifold::Cube(vec3(1.0), true) + Manifold::Sphere(0.7, 8).Translate({0.3, 0, 0});
+  double u = r.uni();
+  if (u < 0.64) return partner();
+  if (u < 0.76) return emptyDefault;
+  if (u < 0.88) return emptyResult;
+  return lazy;  // NB: shared lazy node; evaluated by the first consumer
+}
+
 std::vector<Manifold> applyOpRaw(int k, const Manifold& a, vh::Rng& r, std::string& name) {
-  const Manifold& p = partner();
+  const Manifold& p = pickPartner(r);
   static const char* on[] = {"Add", "Subtract", "Intersect"};
   (void)on;
   switch (k) {
